@@ -72,12 +72,25 @@ RECURSIVE SumPow(_, _)
 SumPow(h, S) == IF S = {} THEN 0 ELSE LET v == CHOOSE x \in S : TRUE IN Power[h][v] + SumPow(h, S \ {v})
 Total(h) == SumPow(h, Vals)
 
-(* ---- block ids are small integers: 0 = the nil id, 1 = a malformed id (a hash without a part-set      *)
-(* header: refused by Vote.ValidateBasic), 2, 3, 4 = blocks "A", "B", "C".  The numeric order is the order  *)
-(* of BlockID.Key(), which DuplicateVoteEvidence.ValidateBasic imposes on VoteA/VoteB (the driver picks     *)
-(* real hashes that sort this way and asserts it).                                                          *)
+(* ---- block ids are small integers.  A real BlockID is (block hash, part-set header = (total, hash)):      *)
+(*   0 = the nil id, 1 = a malformed id (a hash without a part-set header: refused by Vote.ValidateBasic),  *)
+(*   2, 3, 4 = blocks "A" < "B" < "C" (different block hashes),                                             *)
+(*   5 = the block hash of A with ANOTHER (greater) part-set hash,                                           *)
+(*   6 = the block hash and part-set hash of A with another part-set TOTAL.                                  *)
+(* BKey is the order of BlockID.Key() = block hash ++ part-set hash (the driver picks real ids that sort     *)
+(* this way and asserts it).  Key() is what the code means by the TARGET of a vote: VoteSet tallies by it,   *)
+(* two votes of one validator conflict iff their keys differ, DuplicateVoteEvidence.ValidateBasic demands    *)
+(* strictly increasing keys from VoteA to VoteB, and NewDuplicateVoteEvidence orders the votes by it.  The   *)
+(* part-set total is NOT part of the key: 2 and 6 are the same target (a second vote that differs only in    *)
+(* the total lands in the same tally and is refused as a non-deterministic signature; no evidence exists for *)
+(* the pair).  That is what this module specifies as "differently targeted": different Key().                *)
+(* NAMED DEVIATION (harmless, no path reaches it): VerifyDuplicateVote on its own compares whole block ids   *)
+(* (BlockID.Equal, total included) and would take 2 / 6 as different; evidence with equal keys never gets    *)
+(* that far because every decoding (wire, block, the pool's own database) runs ValidateBasic.                *)
 NilB == 0
 BadB == 1
+BKey(b) == CASE b = 0 -> 0 [] b = 1 -> 10 [] b = 2 -> 20 [] b = 6 -> 20 [] b = 5 -> 25 [] b = 3 -> 30 [] b = 4 -> 40 [] OTHER -> 99
+BlockIds == 0..6
 
 (* ---- votes and evidence.                                                                                *)
 (*  v   : validator named by the vote (ValidatorAddress)                                                   *)
@@ -96,7 +109,9 @@ SigOK(vt) == vt.sig = vt.v
 (*  Evidence = [a, b : votes, vp : ValidatorPower, tp : TotalVotingPower, ts : Timestamp (ticks)]          *)
 EvH(e) == e.a.h      \* DuplicateVoteEvidence.Height()
 
-(* A well-formed evidence for validator v at (h, r, t) with blocks b1 < b2, as an honest observer builds it *)
+(* A well-formed evidence for validator v at (h, r, t) with blocks BKey(b1) < BKey(b2), as an honest         *)
+(* observer builds it (types.NewDuplicateVoteEvidence: the vote with the smaller key is VoteA, whichever    *)
+(* of the two it saw first)                                                                                 *)
 MkVote(v, h, r, t, b) == [v |-> v, i |-> 0, h |-> h, r |-> r, t |-> t, b |-> b, sig |-> v]
 Dve(v, h, r, t, b1, b2) ==
   [a |-> MkVote(v, h, r, t, b1), b |-> MkVote(v, h, r, t, b2),
@@ -105,7 +120,7 @@ Dve(v, h, r, t, b1, b2) ==
 (* ---- types/evidence.go ValidateBasic + Vote.ValidateBasic: what survives decoding (reactor decodeMsg,    *)
 (* block decoding).  Evidence that fails here never reaches the pool.                                      *)
 VoteBasicOK(vt) == vt.t \in {1, 2} /\ vt.b # BadB /\ vt.sig # -9
-ValidateBasic(e) == VoteBasicOK(e.a) /\ VoteBasicOK(e.b) /\ e.a.b < e.b.b
+ValidateBasic(e) == VoteBasicOK(e.a) /\ VoteBasicOK(e.b) /\ BKey(e.a.b) < BKey(e.b.b)
 
 (* ---- the pool.                                                                                          *)
 (*  h      : height of the pool's state (LastBlockHeight)                                                  *)
@@ -249,7 +264,7 @@ IsPendingPrefix(st, s, n) ==
 RealEquivocation(e) ==
   /\ EvH(e) \in 1..Top /\ Power[EvH(e)][e.a.v] > 0
   /\ e.a.v = e.b.v /\ e.a.h = e.b.h /\ e.a.r = e.b.r /\ e.a.t = e.b.t /\ e.a.t \in {1, 2}
-  /\ e.a.b # e.b.b /\ SigOK(e.a) /\ SigOK(e.b)
+  /\ BKey(e.a.b) # BKey(e.b.b) /\ SigOK(e.a) /\ SigOK(e.b)
 (* ... and states the punishable facts correctly *)
 StatesFacts(e) == e.vp = Power[EvH(e)][e.a.v] /\ e.tp = Total(EvH(e)) /\ e.ts = T(EvH(e))
 
